@@ -40,19 +40,32 @@ func sliceLoadedElementPositions(
 	distributedLoads []*load.DistributedLoad,
 	slices int,
 ) []nums.TParam {
-	tPos := nums.SubTParamCompleteRangeTimes(slices)
+	// The end positions and the positions of the loads must always be kept.
+	tPos := []nums.TParam{nums.MinT, nums.MaxT}
 	tPos = append(tPos, slicePositionsForConcentratedLoads(concentratedLoads)...)
 	tPos = append(tPos, slicePositionsForDistributedLoads(distributedLoads)...)
+	requiredCount := len(tPos)
+
+	// The uniform slice positions are only kept if they are far enough from the required ones.
+	for _, t := range nums.SubTParamCompleteRangeTimes(slices) {
+		isFarEnough := true
+		for _, required := range tPos[:requiredCount] {
+			if required.DistanceTo(t) <= minDistBetweenTSlices {
+				isFarEnough = false
+				break
+			}
+		}
+
+		if isFarEnough {
+			tPos = append(tPos, t)
+		}
+	}
 
 	sort.Sort(nums.ByTParamValue(tPos))
 
-	var correctedTPos []nums.TParam
-	correctedTPos = append(correctedTPos, tPos[0])
-
-	// FIXME: this might remove positions where a concentrated load is applied, then,
-	// the load will never be applied by the makeNodesWithConcentratedLoads function.
+	correctedTPos := []nums.TParam{tPos[0]}
 	for i := 1; i < len(tPos); i++ {
-		if tPos[i-1].DistanceTo(tPos[i]) > minDistBetweenTSlices {
+		if !tPos[i].Equals(correctedTPos[len(correctedTPos)-1]) {
 			correctedTPos = append(correctedTPos, tPos[i])
 		}
 	}
